@@ -60,6 +60,7 @@ pub fn generate(prop: &str, tier: Tier, seed: u64, run: u64) -> Trace {
         "C10" => crate::gen_term::gen_term("C10", &mut rng, run, thorough),
         "C02" => crate::gen_load::gen_load("C02", &mut rng, run, thorough),
         "C20" => crate::gen_gfx::gen_c20(&mut rng, run, thorough),
+        "C08" => crate::edit::gen_edit(&mut rng, run, thorough),
         "C03" if run % 4 == 3 => crate::gen_load::gen_load("C03", &mut rng, run, thorough),
         "C16" => crate::gen_term::gen_term("C16", &mut rng, run, thorough),
         "C03" => crate::gen_term::gen_c03(&mut rng, run, thorough),
@@ -75,6 +76,7 @@ pub fn execute(trace: &Trace) -> Outcome {
         "term" => crate::term::run_term(trace),
         "sixel_direct" => run_sixel_direct(trace),
         "load" => crate::exec_load::run_load(trace),
+        "edit" => crate::edit::run_edit(trace),
         other => Outcome {
             violation: None,
             ended: format!("harness_error:unknown scenario {other}"),
